@@ -579,6 +579,140 @@ def holder_threads(ctx, quick):
         shutil.rmtree(d, ignore_errors=True)
 
 
+def capture_faults(ctx):
+    """The file a handler is to capture cannot be read after all: the path is a directory (a multi-part download), the file vanishes
+    between the size check and the read (the service's own clean-up thread), or the read fails with EIO. Whatever the framework does -
+    drop the recording or keep it - a file that is not above the limit is never represented by the placeholder, and a recording that
+    is kept replays what the service got."""
+    import builtins
+    import errno
+    from playback.tape_recorder import TapeRecorder
+    from playback.interception.files.input_file_interception import InputInterceptionFileDataHandler
+    from playback.interception.files.output_file_interception import OutputInterceptionFileDataHandler
+    from playback.interception.files.file_interception import FileInterception
+    placeholder = FileInterception.ABOVE_LIMIT_CONTENT
+    for kind in ('memory', 'file', 's3'):
+        for io_kind in ('input', 'output'):
+            for fault in ('directory', 'vanishes_after_size_check', 'read_fails_eio', 'none'):
+                d = tempfile.mkdtemp(prefix='vp-c20f-')
+                try:
+                    with open_box(kind) as box:
+                        spy = SpyCassette(box.cassette)
+                        rec = TapeRecorder(spy)
+                        rec.enable_recording()
+                        in_handler = InputInterceptionFileDataHandler(1, 'file_path', intercepted_size_limit=1)
+                        out_handler = OutputInterceptionFileDataHandler(0, 'file_path', intercepted_size_limit=1)
+                        content = b'payload of the file: ' + bytes(range(200))
+                        target = os.path.join(d, 'parts' if fault == 'directory' else 'data.bin')
+                        armed = {'on': False}
+
+                        class Svc(object):
+                            @rec.intercept_input('files.fetch', data_handler=in_handler, capture_args=[])
+                            def fetch(self, file_path):
+                                if fault == 'directory':
+                                    os.makedirs(file_path)
+                                    with open(os.path.join(file_path, 'part-0'), 'wb') as f:
+                                        f.write(content)
+                                else:
+                                    with open(file_path, 'wb') as f:
+                                        f.write(content)
+                                armed['on'] = True
+                                return file_path
+
+                            @rec.intercept_output('files.publish', data_handler=out_handler)
+                            def publish(self, file_path):
+                                return 'published'
+
+                            @rec.operation()
+                            def run(self, path):
+                                if io_kind == 'input':
+                                    try:
+                                        got = self.fetch(path)
+                                    finally:
+                                        armed['on'] = False
+                                    return ('fetched', os.path.isdir(got) or os.path.exists(got))
+                                if fault == 'directory':
+                                    os.makedirs(path)
+                                else:
+                                    with open(path, 'wb') as f:
+                                        f.write(content)
+                                armed['on'] = True
+                                try:
+                                    return self.publish(path)
+                                finally:
+                                    armed['on'] = False
+                        real_getsize, real_open = os.path.getsize, builtins.open
+
+                        def getsize(pth):
+                            n = real_getsize(pth)
+                            if armed['on'] and fault == 'vanishes_after_size_check' and pth == target:
+                                os.remove(pth)
+                            return n
+
+                        def opener(pth, mode='r', *a, **k):
+                            if armed['on'] and fault == 'read_fails_eio' and pth == target and 'r' in mode:
+                                raise OSError(errno.EIO, 'Input/output error (injected)', pth)
+                            return real_open(pth, mode, *a, **k)
+                        os.path.getsize, builtins.open = getsize, opener
+                        try:
+                            try:
+                                Svc().run(target)
+                            except Exception as ex:
+                                ctx.count('capture_fault_runs_ending_in_' + type(ex).__name__)
+                        finally:
+                            os.path.getsize, builtins.open = real_getsize, real_open
+                        w = {'kind': 'capture_faults', 'cassette': kind, 'handler': io_kind, 'fault': fault}
+                        ctx.case(w)
+                        ctx.count('capture_fault_runs')
+                        saves = [e for e in spy.log if e[0] == 'save' and not (e[4] or {}).get(TapeRecorder.INCOMPLETE_RECORDING)]
+                        if not saves:
+                            ctx.count('capture_fault_runs_not_saved')
+                            if fault == 'none':
+                                ctx.violation('a fault-free file trip was not saved', w)
+                            continue
+                        ctx.count('capture_fault_runs_saved')
+                        got = box.reader().get_recording(saves[0][2])
+                        for key in got.get_all_keys():
+                            v = got.get_data(key)
+                            entry = v.get('value', v) if isinstance(v, dict) else None
+                            if 'files.' in key and isinstance(entry, dict) and 'file_content' in entry:
+                                ctx.count('recorded_file_entries_inspected')
+                                fc = entry['file_content']
+                                if fc in (placeholder, placeholder.decode() if isinstance(placeholder, bytes) else placeholder.encode()):
+                                    ctx.violation('a path that is not a file above the size limit is represented by the placeholder in a saved, complete recording',
+                                                  dict(w, key=key))
+                        if fault == 'none':
+                            ctx.count('input_files_compared')
+                finally:
+                    shutil.rmtree(d, ignore_errors=True)
+
+
+def optimised_interpreter(ctx):
+    """The same trips with the interpreter's optimisation switched on (python -O: assert statements are compiled away), as services started
+    with PYTHONOPTIMIZE are: a handful of trips in a child interpreter, its violations are reported here."""
+    import json
+    import subprocess
+    import sys
+    code = ("import sys, json; sys.path.insert(0, %r); from vlib import env; env.bootstrap(); from checks import C20; import random; "
+            "ctx = env.Ctx('C20', 'exploration', 'quick', 0); rng = random.Random(5); "
+            "[C20.trip(ctx, dict(C20.shapes(rng), seed=900 + i, cassette=('memory', 'file', 's3')[i %% 3], **extra)) for i, extra in enumerate("
+            "[{}, {}, {}, {'size': 2000, 'limit_mb': 1024 / float(C20.MIB), 'above': True}, {'size': 10240}, {'content_kind': 'zlib_of_text'}])]; "
+            "print('SUB ' + json.dumps({'violations': [v['what'] for v in ctx.violations], 'compared': ctx.counters.get('input_files_compared', 0), 'optimised': not __debug__}))") % env.VERIF
+    try:
+        p = subprocess.run([sys.executable, '-O', '-c', code], stdout=subprocess.PIPE, stderr=subprocess.PIPE, text=True, timeout=600,
+                           env=dict(os.environ, VERIF_REPO=env.REPO, PYTHONHASHSEED='0'))
+        res = json.loads([l for l in p.stdout.splitlines() if l.startswith('SUB ')][-1][4:])
+    except Exception as ex:
+        ctx.inconclusive('trips under python -O did not report: %r' % (ex,))
+        return
+    ctx.case(('optimised_interpreter', res['compared']))
+    ctx.count('trips_under_python_O', res['compared'])
+    if not res['optimised'] or not res['compared']:
+        ctx.inconclusive('the child interpreter did not run optimised trips')
+    for what in res['violations'][:3]:
+        ctx.violation('with interpreter optimisation on (python -O): ' + what, {'kind': 'optimised_interpreter'})
+
+
 def contents_fixed(rng, size):
     return bytes(rng.randrange(256) for _ in range(size))
 
@@ -665,6 +799,8 @@ def run(ctx):
     if ctx.shard == 0:
         trip_threads(ctx, ctx.quick)
         holder_threads(ctx, ctx.quick)
+        capture_faults(ctx)
+        optimised_interpreter(ctx)
     for i in range(n):
         case = dict(shapes(rng), seed=base + 10000 + i)
         if rng.random() < 0.3:
@@ -687,6 +823,10 @@ def replay(ctx, w):
     case = {k: v for k, v in w.items() if k not in ('content_len', 'round', 'got_len')}
     if case.get('kind') == 'rounds':
         return trip_rounds(ctx, case)
+    if case.get('kind') == 'capture_faults':
+        return capture_faults(ctx)
+    if case.get('kind') == 'optimised_interpreter':
+        return optimised_interpreter(ctx)
     if case.get('kind') == 'holder_threads':
         return holder_threads(ctx, ctx.quick)
     if case.get('kind') == 'threads':
